@@ -27,7 +27,7 @@ def scan_mux(accumulator, seed, reduce, terminator):
                     i.store.add_key(state, i.key)
                     observer.on_next(i)
                 elif type(i) is rs.OnCompletedMux:
-                    if terminator:
+                    if terminator is not None:
                         value = i.store.get_state(state, i.key)
                         if value is rs.state.markers.STATE_NOTSET:
                             value = seed() if callable(seed) else copy.deepcopy(seed)
@@ -97,7 +97,7 @@ def scan_obs(accumulator, seed, reduce, terminator):
                 nonlocal state
                 nonlocal has_state
 
-                if terminator:
+                if terminator is not None:
                     value = state
                     if has_state is False:
                         value = seed() if callable(seed) else copy.deepcopy(seed)
